@@ -135,9 +135,49 @@ fn char_set_next_probes(a: &Automaton, rng: &mut Rng) -> Value {
     json!(out)
 }
 
+/// C14 on automata that come out of the builder: every second accepted specification of the random driver is also
+/// pruned and its tables / edges / counters are observed, before and after (whatever build() accepts is an automaton
+/// the C14 operations must be right about)
+static PRUNE_SINK: std::sync::Mutex<Option<(Vec<Value>, u64, u64)>> = std::sync::Mutex::new(None);
+
+fn builder_prune_record(calls: &[Call], seed: u64) -> Option<Value> {
+    let cj: Vec<Value> = calls.iter().map(call_json).collect();
+    let reps0 = label_reps(calls);
+    let r = guarded(|| -> Result<(AutDump, AutDump, Value, Value, Value), String> {
+        let mut a1 = run_calls(calls).build().map_err(|e| format!("{:?}", e))?;
+        let mut a2 = run_calls(calls).build().map_err(|e| format!("{:?}", e))?;
+        let _ = &mut a1;
+        touch(&a2);
+        a2.remove_unreachable_states();
+        let db0 = dump_automaton(&a2, &[], &reps0);
+        let da = dump_automaton(&a1, &[], &db0.reps);
+        let db = dump_automaton(&a2, &[], &da.reps);
+        let s_before = structure(&a1, &da);
+        let s_after = structure(&a2, &db);
+        let csn = char_set_next_probes(&a1, &mut Rng::new(seed));
+        Ok((da, db, s_before, s_after, csn))
+    });
+    match r {
+        Ok(Ok((da, db, sb, sa, csn))) => Some(json!({"op":"prune","calls":cj,"style":7,"pre":"none","before":da.json(),"after":db.json(),
+            "str":sb,"str_after":sa,"csn":csn})),
+        Ok(Err(_)) => None,
+        Err(msg) => Some(json!({"op":"panic","calls":cj,"where":"remove_unreachable_states/tables","msg":msg})),
+    }
+}
+
 /// one builder behaviour: calls as given, then build()
 fn builder_record(calls: &[Call], gen_verdict: &str) -> Value {
     let cj: Vec<Value> = calls.iter().map(call_json).collect();
+    if let Some((sink, k, seed)) = PRUNE_SINK.lock().unwrap().as_mut() {
+        *k += 1;
+        // (small specifications only: the validator's fixpoints grow with labels x states)
+        let nadd = calls.iter().filter(|c| matches!(c, Call::Add(..))).count();
+        if *k % 2 == *seed % 2 && nadd <= 8 {
+            if let Some(v) = builder_prune_record(calls, *seed ^ *k) {
+                sink.push(v);
+            }
+        }
+    }
     let r = guarded(|| {
         let mut b = run_calls(calls);
         match b.build() {
@@ -202,6 +242,9 @@ pub fn replay_builder(a: &Args) {
 pub fn drive_builder(a: &Args) {
     let mut rng = Rng::new(a.seed ^ 0xB1);
     let mut out = Out::create(&a.out, "builder_random.ndjson");
+    if arg(a, "--for").as_deref() == Some("C14") {
+        *PRUNE_SINK.lock().unwrap() = Some((vec![], 0, a.seed));
+    }
     for _ in 0..a.sz(1500, 30000) {
         let ns = rng.range(1, 4);
         let mut calls = vec![Call::New(rng.range(0, ns - 1))];
@@ -482,6 +525,13 @@ pub fn drive_builder(a: &Args) {
             calls.push(Call::Fin(1));
             out.emit(builder_record(&calls, ""));
         }
+    }
+    if let Some((sink, _, _)) = PRUNE_SINK.lock().unwrap().take() {
+        let mut po = Out::create(&a.out, "builder_prune.ndjson");
+        for v in sink {
+            po.emit(v);
+        }
+        po.finish();
     }
     let n = out.finish();
     println!("{{\"family\":\"builder-random\",\"events\":{}}}", n);
